@@ -848,9 +848,13 @@ pub fn run(tier: Tier) -> Report {
   rep.add(structural_sub(tier));
   rep.add(static_mutation_sub(tier));
   rep.add(live_mutation_sub(tier));
+  crate::c07_world::add_world_subs(&mut rep, tier);
   rep
 }
 
 pub fn replay(sub: &str, w: &Value) -> Result<String, String> {
+  if w["explorer"] == "e3" {
+    return crate::c07_world::replay(w);
+  }
   Err(format!("replay of {}: re-run ./check C07 (witness {})", sub, w))
 }
